@@ -477,7 +477,9 @@ func excludedByErrorsAs(fn *ssa.Function, site ssa.CallInstruction) []types.Type
 			continue
 		}
 		// false successor dominates the site's block
-		if len(b.Succs) == 2 && b.Succs[1].Dominates(blk) && b.Succs[1] != b.Succs[0] {
+		// the false EDGE must dominate: a false successor that is also reached another way (the join
+		// after `errors.As(...) && cond`) says nothing about the error's type
+		if len(b.Succs) == 2 && len(b.Succs[1].Preds) == 1 && b.Succs[1].Dominates(blk) && b.Succs[1] != b.Succs[0] {
 			// target: MakeInterface(**T)
 			tgt := call.Call.Args[1]
 			if mi, ok := tgt.(*ssa.MakeInterface); ok {
